@@ -133,6 +133,16 @@ Proof.
   rewrite Hm. apply env_get_unset_other. exact H.
 Qed.
 
+(* a variable is identified by its exact name: setting n changes the binding of n and of no other
+   name, in particular not of a name that n is a prefix of, or that is a prefix of n *)
+Lemma env_get_set : forall e n v m,
+  env_get (env_set e n v) m = if str_eqb m n then Some v else env_get e m.
+Proof.
+  intros e n v m. destruct (str_eqb m n) eqn:E.
+  - apply str_eqb_eq in E. subst m. apply env_get_set_same.
+  - apply env_get_set_other. apply str_eqb_neq in E. congruence.
+Qed.
+
 (* ---- the precedence formula ---------------------------------------------------- *)
 (* what the file stage yields in a state: the value cached on the parameter, else the
    first entry of the list of file values whose name is the real name or a synonym *)
@@ -563,6 +573,30 @@ Proof.
   - apply str_eqb_eq in E. subst k. rewrite (assoc_not_in _ _ H1). apply env_get_set_same.
   - destruct (assoc n kvs); [reflexivity|]. apply env_get_set_other.
     apply str_eqb_neq in E. congruence.
+Qed.
+
+(* add_to_env / the copy loop of parsec_init: the names that are not in the list keep their binding,
+   whatever names are in the list *)
+Lemma add_to_env_other : forall kvs e n,
+  ~ In n (map fst kvs) -> env_get (add_to_env kvs e) n = env_get e n.
+Proof.
+  unfold add_to_env. induction kvs as [|[k v] kvs IH]; intros e n H; cbn [fold_left]; [reflexivity|].
+  cbn in H. rewrite IH by tauto. cbn [fst snd]. apply env_get_set_other. intros E. apply H. left. exact E.
+Qed.
+
+(* a command line that does not name n leaves n alone *)
+Lemma cmdline_other : forall args e n,
+  (forall a, In a args -> fst (snd a) <> n) -> env_get (process_cmdline args e) n = env_get e n.
+Proof.
+  intros args e n H.
+  assert (Hv : forall f, vals n (map snd (filter f args)) = []).
+  { intros f. unfold vals. induction args as [|a args IH]; [reflexivity|]. cbn [filter].
+    assert (Ha : str_eqb n (fst (snd a)) = false).
+    { apply str_eqb_neq. intros E. apply (H a (or_introl eq_refl)). congruence. }
+    assert (IH' : map snd (filter (fun a0 => str_eqb n (fst a0)) (map snd (filter f args))) = [])
+      by (apply IH; intros b Hb; apply H; right; exact Hb).
+    destruct (f a); [|exact IH']. cbn [map filter]. rewrite Ha. exact IH'. }
+  unfold process_cmdline. rewrite !add_to_env_get by apply collect_nodup. rewrite !collect_join, !Hv. reflexivity.
 Qed.
 
 Definition mca_args (args : list (bool * (list ascii * list ascii))) := map snd (filter (fun a => negb (fst a)) args).
